@@ -232,17 +232,62 @@ def training_runs(chk, rng, per):
             rec = []
             orig = td3m.sample_target_actions
 
+            levels = {"explore": set(), "target": set()}     # the noise levels the routine hands to its two samplers (static arguments)
+
             def wrapped(action_low, action_high, action_scale, exploration_noise, noise_clip, policy, obs, key, _o=orig, _rec=rec):
+                levels["target"].add((float(exploration_noise), float(noise_clip)))
                 out = _o(action_low, action_high, action_scale, exploration_noise, noise_clip, policy, obs, key)
                 jax.debug.callback(lambda p, o: _rec.append((np.array(p), np.array(o))), policy(obs), out)
                 return out
             td3m.sample_target_actions = wrapped
+            import rl_blox.algorithm.ddpg as ddpgm
+            orig_sa, rec_sa = ddpgm.sample_actions, []
+
+            def wrapped_sa(action_low, action_high, action_scale, exploration_noise, policy, obs, key, _o=orig_sa):
+                levels["explore"].add(float(exploration_noise))
+                out = _o(action_low, action_high, action_scale, exploration_noise, policy, obs, key)
+                jax.debug.callback(lambda p, o, kd: rec_sa.append((np.array(p), np.array(o), np.array(kd))), policy(obs), out, jax.random.key_data(key))
+                return out
+            ddpgm.sample_actions = wrapped_sa
             try:
                 res = tr.run(name, script, total, warm=warm, seed=int(rng.integers(0, 1000)), low=tuple(float(x) for x in low), high=tuple(float(x) for x in high),
                              extra={"kw": kw, "pd": 1})
                 jax.effects_barrier()
             finally:
                 td3m.sample_target_actions = orig
+                ddpgm.sample_actions = orig_sa
+            # the configured noise levels reach the right sampler, and every exploration action is clip(pi(o) + level * half range * N(0,1)(key))
+            if name != "pets":
+                exp_target = {"td3": (noise, clipc), "ddpg": None}.get(name, (tnoise, clipc))
+                if levels["explore"] - {noise} or (exp_target is not None and levels["target"] - {exp_target}):
+                    chk.fail(f"C10:train_{name}:noise-level", "the routine builds a sampler with a noise level other than the configured one",
+                             {"case": case, "exploration_sampler_levels": sorted(levels["explore"]), "target_sampler_levels": sorted(levels["target"]),
+                              "configured": {"exploration_noise": noise, "target": exp_target}})
+                half = 0.5 * (high.astype(np.float64) - low)
+                for p_, o_, kd in rec_sa:
+                    z = np.asarray(jax.random.normal(jax.random.wrap_key_data(kd), p_.shape), dtype=np.float64)
+                    pre = np.clip(p_.astype(np.float64) + noise * half * z, low, high)
+                    chk.count("exploration_actions_recomputed")
+                    if not np.allclose(o_, pre, rtol=2e-5, atol=2e-5 * float(np.max(np.abs(half)) + np.max(np.abs(low)) + np.max(np.abs(high)))):
+                        chk.fail(f"C10:train_{name}:pre-clip-form", "an exploration action computed during training is not clip(policy action + configured noise level * half "
+                                 "range * N(0,1)(key))", {"case": case, "policy_action": p_.tolist(), "action": o_.tolist(), "expected": pre.tolist()})
+                        break
+            # the policy heads after training still map any network output into the box
+            import jax.numpy as jnp
+            from flax import nnx
+            from rl_blox.blox.function_approximator.policy_head import DeterministicTanhPolicy
+            for mname, mod in res["mods"].items():
+                mod = tr.resolve(mod)
+                if mod is None or isinstance(mod, nnx.Optimizer):
+                    continue
+                heads = [v for _, v in nnx.iter_graph(mod) if isinstance(v, DeterministicTanhPolicy)]
+                for hd in heads:
+                    for sgn in (1.0, -1.0):
+                        y = np.asarray(hd.scale_output(jnp.full((d,), sgn * 1e6, dtype=jnp.float32)), dtype=np.float64)
+                        if not (np.all(y >= low - ulp_tol(low, high)) and np.all(y <= high + ulp_tol(low, high))):
+                            chk.fail(f"C10:train_{name}:trained-head-bounds", "after training, a tanh-scaled policy head maps a large network output outside the action bounds "
+                                     "(its scale / offset are no longer those of the action space)", {"case": case, "module": mname, "output": y.tolist()})
+                    chk.count("trained_heads_checked")
             chk.case(("run", str(case)))
             chk.count("runs_" + name)
             tol = ulp_tol(low, high) if name == "pets" else 0.0
